@@ -1064,11 +1064,14 @@ ProjRP(r) ==
   ELSE [ r |-> r, sid |-> rp[r].sid, started |-> rp[r].started, startFail |-> rp[r].startFail,
          okC |-> rp[r].okC, errC |-> rp[r].errC, gotS |-> Len(rp[r].gotS), sEOF |-> rp[r].sEOF,
          okS |-> rp[r].okS, errS |-> rp[r].errS, gotC |-> Len(rp[r].gotC),
-         cls |-> rp[r].cRes.cls, code |-> rp[r].cRes.code, inv |-> rp[r].inv, cancelled |-> rp[r].cancelled ]
+         cls |-> rp[r].cRes.cls, code |-> rp[r].cRes.code, inv |-> rp[r].inv, cancelled |-> rp[r].cancelled,
+         \* metadata: what the caller read (headers, trailers), what the handler set
+         hdrSeen |-> rp[r].hdrSeen, hdr |-> rp[r].hdr, trlSeen |-> rp[r].trlSeen, trl |-> rp[r].trl,
+         hHdr |-> rp[r].hHdr, hTrl |-> rp[r].hTrl ]
 ProjWS(s) ==
   IF s \notin DOMAIN ws THEN [s |-> 0]
   ELSE [ s |-> s, rpc |-> ws[s].rpc, news |-> ws[s].news, cHalf |-> ws[s].cHalf, cCancel |-> ws[s].cCancel,
-         sHdr |-> ws[s].sHdr, sClose |-> ws[s].sClose, ccode |-> ws[s].close.code,
+         sHdr |-> ws[s].sHdr, sHdrMD |-> ws[s].sHdrMD, sClose |-> ws[s].sClose, ccode |-> ws[s].close.code, cmd |-> ws[s].close.md,
          newDeliv |-> ws[s].newDeliv, halfDeliv |-> ws[s].halfDeliv, cancelDeliv |-> ws[s].cancelDeliv,
          hdrDeliv |-> ws[s].hdrDeliv, closeDeliv |-> ws[s].closeDeliv, cMsgsD |-> ws[s].cMsgsD, sMsgsD |-> ws[s].sMsgsD,
          cliEnd |-> ws[s].cliEnd ]
